@@ -1,4 +1,5 @@
 """Rules over new_history and the readers of the history: C08, C09, C11, C12, C18 (A4 provenance)."""
+import os, sys
 import mir as M
 from domain import fin, adt_variants, TOP, BOOL
 from interp import Imprecision
@@ -545,6 +546,8 @@ def check_C09(A, R, tier):
     # after an interruption the resumed evaluation would then not rebuild it)
     from rules_compare import rule_no_skip_when_invalidated
     rule_no_skip_when_invalidated(A, R, "R9.3")
+    # R9.4 (= R18.5 own records): the carried-over records of a present job pass the history filter whatever their value
+    rule_filter_keeps_own(A, R, "R9.4")
     R.explanation = ("First sentence decided: for every final point (state in upstream-failed/aborted, never started) the abstract run of "
                      "new_history reaches no removal keyed by the job and writes no per-dependency record into it; 'never started' is "
                      "the ghost bit 'passed Running', identified with a bool field of NodeInfo that is false at creation and set exactly "
@@ -950,6 +953,9 @@ def filter_rules(A, R, fcl, nhrun):
             continue
         R.ob("R18.5", "filter | %s, an output of the recorded job now belongs to a present job of another name | the record is dropped" % mname,
              r["ret"] == {0}, detail="possible results %s (1 = keep): a record of a superseded job can survive for some id" % sorted(r["ret"]))
+    # own records of a present job that was not renamed are kept, whatever they contain: the filter decides by keys, not by values
+    # (a never-started job keeps its records unchanged; a stale input-name list is the evidence that its inputs changed)
+    rule_filter_keeps_own(A, R, "R18.5", fcl)
     # own records (no separator / empty second part) also go through the superseded filter
     r = run_filter_mode(A, nh, fcl, None, None)
     R.ob("R18.5", "filter | every key class can reach the superseded filter", r["parts_get"])
@@ -1029,6 +1035,106 @@ def filter_rules(A, R, fcl, nhrun):
                         why = ("the map is filled from the nodes of the graph, from which %s removes jobs that are still present "
                                "(their ids stay registered, their records are kept)" % short(removes[0]))
         R.ob("R18.4", "new_history | every present job registers its outputs in the output->job map", okall, detail=why, site=A.site(v))
+
+
+def rule_filter_keeps_own(A, R, rule, fcl=None):
+    """own records (output record, input-name list) of a present job that was not renamed pass the history filter whatever they
+    contain: the filter decides by keys, never by values (C09: a never-started job keeps its records unchanged; a stale
+    input-name list is the evidence that its inputs changed)"""
+    nh = A.evaluator_fn("new_history")
+    if fcl is None:
+        hf = history_filter(A, nh_run(A, "joined", "none"))
+        fcl = hf["closure"] if hf else None
+    R.ob(rule, "new_history | the history filter closure is identified", fcl is not None)
+    if fcl is None:
+        return
+    for shape, what in (("plain", "output record"), ("suffix", "input-name list")):
+        rv_ = run_filter_own(A, nh, fcl, shape)
+        R.ob(rule, "filter | %s of a present job that was not renamed | kept whatever its value" % what, rv_ == {1},
+             detail="possible results %s (1 = keep): the record of a present job can be dropped by the filter depending on its content"
+                    % sorted(rv_))
+
+
+def run_filter_own(A, nh, fcl, shape):
+    """analyse the filter closure for an own record of a present, not renamed job: key shape forced to 'plain' (no separator) or
+    'suffix' (separator, nothing behind it), every id lookup hits, every lookup in the output->job map finds the job itself.
+    -> set of possible results (1 = keep)"""
+    from interp import Interp, Config, State
+    from domain import ref, string, adt, TRUE, FALSE
+    import models
+    OPTION = "std::option::Option"
+    body = A.facts.body(fcl)
+    I = Interp(A.facts, A.uni, A.layout, Config(label="FILTOWN"))
+    I.models = dict(I.models)
+    orig_get = I.models["std::collections::HashMap::<K, V, S, A>::get"]
+
+    def get_model(I_, state, frame, bi, t, args, span):
+        res = orig_get(I_, state, frame, bi, t, args, span)
+        out = []
+        local = models.self_field_of(I_, args[0]) is None
+        for (rv, st) in res:
+            if local:
+                out.append((adt(OPTION, {1: (string([("partsval",)]),)}), st))      # the map names this very job
+            elif rv[0] == "adt" and 1 in dict(rv[2]):
+                out.append((adt(rv[1], {1: dict(rv[2])[1]}), st))
+            else:
+                out.append((rv, st))
+        return out
+    I.models["std::collections::HashMap::<K, V, S, A>::get"] = get_model
+    I.models["std::collections::HashMap::<K, V, S, A>::contains_key"] = lambda I_, st_, fr_, bi_, t_, a_, sp_: [(TRUE, st_)]
+    for nm_, val_ in (("std::cmp::PartialEq::eq", TRUE), ("std::cmp::PartialEq::ne", FALSE),
+                      ("core::str::traits::<impl std::cmp::PartialEq for str>::eq", TRUE)):
+        orig_eq = I.models[nm_]
+
+        def eqm(I_, st_, fr_, bi_, t_, a_, sp_, _o=orig_eq, _v=val_):
+            svs = [models.str_of(I_, st_, x) for x in a_[:2]]
+            for sv in svs:
+                if sv is not None and any(p_[0] == "partsval" for p_ in sv[1]):
+                    return [(_v, st_)]
+            if all(sv is not None and sv[1] for sv in svs):
+                # the part behind the separator compared with the empty literal (`Some((id, ""))`) is an emptiness test
+                for (x_, y_) in ((svs[0], svs[1]), (svs[1], svs[0])):
+                    if all(p_[0] == "after" for p_ in x_[1]) and all(p_[0] == "const" and p_[1] == "" for p_ in y_[1]):
+                        return [(_v, st_)]
+            return _o(I_, st_, fr_, bi_, t_, a_, sp_)
+        I.models[nm_] = eqm
+    has_sep = shape == "suffix"
+    I.models["core::str::<impl str>::contains"] = lambda I_, st_, fr_, bi_, t_, a_, sp_: [(TRUE if has_sep else FALSE, st_)]
+    orig_so = I.models["core::str::<impl str>::split_once"]
+
+    def so(I_, st_, fr_, bi_, t_, a_, sp_):
+        res = orig_so(I_, st_, fr_, bi_, t_, a_, sp_)
+        out = []
+        for (rv, st) in res:
+            vs = dict(rv[2]) if rv[0] == "adt" else {}
+            if has_sep and 1 in vs:
+                out.append((adt(rv[1], {1: vs[1]}), st))
+            elif not has_sep:
+                out.append((adt(OPTION, {0: ()}), st))
+        return out or res
+    I.models["core::str::<impl str>::split_once"] = so
+    for nm_ in ("core::str::<impl str>::is_empty", "std::string::String::is_empty"):
+        orig_ie = I.models[nm_]
+
+        def ie(I_, st_, fr_, bi_, t_, a_, sp_, _o=orig_ie):
+            s_ = models.str_of(I_, st_, a_[0])
+            if s_ is not None and s_[1] and all(p_[0] == "after" for p_ in s_[1]):
+                return [(TRUE, st_)]
+            return _o(I_, st_, fr_, bi_, t_, a_, sp_)
+        I.models[nm_] = ie
+    pair = adt("tuple", {0: (string([("histkey",)]), string([("hist", frozenset([("anykey",)]))]))})
+    st = State()
+    st.heap[("cloarg",)] = pair
+    args = {1: closure_env(A, I, body, st), 2: ref(("cloarg",), ())}
+    if body.arg_count == 3:
+        args = {1: args[1], 2: string([("histkey",)]), 3: string([("hist", frozenset([("anykey",)]))])}
+    fr, out, col = I.analyze(body, args=args, state=st)
+    if out is None:
+        return set()
+    r = out.locals.get((fr.fid, 0))
+    if r is not None and r[0] == "fin":
+        return set(c[0] for c in r[2])
+    return {0, 1}
 
 
 def run_filter_mode(A, nh, fcl, hit_a, hit_b, superseded=False):
